@@ -8,7 +8,6 @@
 package main
 
 import (
-	"os"
 	"encoding/json"
 	"fmt"
 	"hash/fnv"
@@ -153,11 +152,13 @@ func child(raw json.RawMessage, io *core.ChildIO) (any, error) {
 				continue
 			}
 			io.Log(map[string]any{"config": ci, "plugin": plugin, "selectors": c.Selectors})
-			capacity := []int{1, 2, 4, 16, 256}[ci%5]
-			if e := os.Getenv("C18_CAP"); e != "" {
-				capacity, _ = strconv.Atoi(e)
-			}
-			out.Counters[fmt.Sprintf("pipeline.capacity_%d", capacity)]++
+			// Event objects (and their insane-json roots/node pools) are handed out round-robin, so a small
+			// pool recycles them between events of one configuration. Events are fed in waves smaller than
+			// the pool and the next wave starts only after the previous one reached the output: the input
+			// never has to wait for a free event (pool waiting is C04/C05 territory, not this property).
+			shape := [][2]int{{2, 1}, {4, 3}, {8, 5}, {64, 60}, {256, 200}}[ci%5]
+			capacity, wave := shape[0], shape[1]
+			out.Counters[fmt.Sprintf("pipeline.pool_%d_wave_%d", capacity, wave)]++
 			rr, err := startReal(plugin, c.Selectors, capacity)
 			if err != nil {
 				addViol("plugin="+plugin+" config-rejected", &witness{Config: ci, Event: -1, Plugin: plugin, Selectors: c.Selectors, Paths: c.paths, What: "documented selectors rejected: " + err.Error()})
@@ -172,7 +173,9 @@ func child(raw json.RawMessage, io *core.ChildIO) (any, error) {
 					}
 				}
 			} else {
-				ferr = rr.feed(c.events, 0, len(c.events), 2*time.Minute)
+				for st := 0; st < len(c.events) && ferr == nil; st += wave {
+					ferr = rr.feed(c.events, st, min(st+wave, len(c.events)), 2*time.Minute)
+				}
 			}
 			if ferr != nil {
 				out.Incon["pipeline did not deliver all events ("+plugin+")"]++
@@ -253,6 +256,15 @@ func child(raw json.RawMessage, io *core.ChildIO) (any, error) {
 						out.Samples = append(out.Samples, map[string]any{"plugin": plugin, "selectors": c.Selectors, "input": core.Trunc(ev.bytes, 400), "output": core.Trunc(got, 400)})
 					}
 					continue
+				}
+				contentOK := true
+				for _, f := range v {
+					if !strings.Contains(f.signature, "diff=survivor-key-order") {
+						contentOK = false
+					}
+				}
+				if contentOK {
+					out.Counters[pre+"equal_to_reference_ignoring_key_order_only"]++
 				}
 				for _, f := range v {
 					addViol(f.signature, &witness{Config: ci, Event: ei, Plugin: plugin, Selectors: c.Selectors, Paths: c.paths,
